@@ -165,7 +165,7 @@ SERIALIZERS = ["ident", "str", "wrap", "neg"]
 EXC_EXCEPTION = ["ValueError", "KeyError", "RuntimeError", "UserError", "DeepUserError", "OSError", "FileNotFoundError",
                  "ZeroDivisionError", "BadStr", "UnicodeErr", "StopIteration", "FalsyError", "EmptyErrors", "BadStrRaisesBase",
                  "ExceptionGroup", "ChainedError", "NoArgsError", "NonStrArgs", "CtorArgs", "SlotsError", "LongTextError", "NestedError",
-                 "UnicodeDecodeError", "RemoteError", "OddSyntaxError"]
+                 "UnicodeDecodeError", "RemoteError", "OddSyntaxError", "UnhashableClassError"]
 EXC_BASE = ["KeyboardInterrupt", "GeneratorExit", "SystemExit", "CancelledError", "UserBase", "BadStrBase"]
 
 
